@@ -297,7 +297,7 @@ pub fn replay(args: &Args) -> i32 {
             let want = u32s(&call[2]);
             match encoding_of(call[0].as_u64().unwrap()) {
                 Some(enc) => {
-                    let got = cps(&enc.decode(&arg).0);
+                    let got = cps(&enc.decode_without_bom_handling(&arg).0);
                     if got != want { rep.fail("table-mismatch", doc, call.clone(), json!(got)); table_ok = false; break; }
                 }
                 None => { rep.fail("table-mismatch:page", doc, call.clone(), json!(null)); table_ok = false; break; }
@@ -343,9 +343,10 @@ fn page_highs(cp: u16) -> Vec<Ch> {
         _ => vec![],
     }
 }
-/// BIFF8 alphabet: any code point whose UTF-16 bytes the tables can decode under every page
+/// BIFF8 alphabet: BMP characters (a BIFF8 string is UTF-16 whatever the CODEPAGE record says), with the
+/// byte-order-mark look-alikes U+FEFF and U+BBEF U+00BF (bytes EF BB BF 00) included
 fn uni_highs() -> Vec<Ch> {
-    vec![Ch { u: 0xE9, b: vec![] }, Ch { u: 0x416, b: vec![] }]
+    [0xE9u32, 0x416, 0x20AC, 0x3042, 0xFEFF, 0xBBEF, 0xBF, 0xFF, 0xFE].iter().map(|u| Ch { u: *u, b: vec![] }).collect()
 }
 
 fn rand_text(rng: &mut StdRng, highs: &[Ch], len: usize, p_high: f64) -> Text {
